@@ -17,7 +17,7 @@ ASSUMPTIONS = ['the decoders find every object pycdlib lays out (each pointer is
 
 PROFILE = H.Profile('c04', nops=(4, 28),
                     weights={'add_dir': 20, 'rm_dir': 10, 'rm_file': 12, 'rm_link': 8, 'add_link': 10, 'add_symlink': 6, 'add_eltorito': 3,
-                             'add_boot_file': 3, 'add_isohybrid': 2, 'dup_pvd': 0.5, 'restart': 6})
+                             'add_boot_file': 3, 'add_isohybrid': 2, 'dup_pvd': 0.5, 'restart': 6, 'ptr_cycle': 0.3})
 
 
 class C04(H.Oracle):
